@@ -94,7 +94,8 @@ for (commit, n), exp in sorted(EXPECT.items(), key=lambda kv: str(kv[0])):
     if not done:
         problems.append('%s hunk %d: no unique context found' % (commit, n))
 # commits whose hunks do not type-check one at a time are reverted whole, as a patch
-for commit, rule, prop, key in [('3b1d4ff', 'PRODUCER', 'C28', 'PRODUCER/osm.ReadPBFWithOptions#1'), ('b4ed2c5', 'PRODUCER', 'C28', 'PRODUCER/ingest.(MemoryFeatureSource).Read#1')]:
+for commit, rule, prop, key in [('3b1d4ff', 'PRODUCER', 'C28', 'PRODUCER/osm.ReadPBFWithOptions#1'), ('b4ed2c5', 'PRODUCER', 'C28', 'PRODUCER/ingest.(MemoryFeatureSource).Read#1'),
+        ('a17927f', 'APPLIED-UNWRAP', 'C26', 'APPLIED-UNWRAP/ui.(*EvaluateHandler).ServeHTTP#2'), ('9fa9787', 'REPEATABLE-APPLY', 'C26', 'REPEATABLE-APPLY/ingest.(ingestedYAML).Apply')]:
     mutants.append({'id': 'revert-%s-whole-%s' % (commit, rule), 'rule': rule, 'property': prop, 'patch': 'mutants/patches/revert-%s.diff' % commit,
                     'expect_key': key, 'why': 'puts back the defect repaired by %s (%s)' % (commit, subjects.get(commit, '?'))})
 json.dump(mutants, open('/verif/mutants/REVERT.json', 'w'), indent=1)
